@@ -66,7 +66,7 @@ def gen_program(rng, poolkind=None):
     for _ in range(nsp):
         tasks = []
         for _ in range(rng.choice((1, 2, 3, 5))):
-            kind = rng.choice(("ret", "ret", "raise", "sleep", "block", "raise_base", "raise_sysexit"))
+            kind = rng.choice(("ret", "ret", "raise", "sleep", "block", "raise_base", "raise_sysexit", "ret_exception", "ret_none"))
             tasks.append((tid, kind))
             tid += 1
         spawners.append(tasks)
@@ -124,6 +124,11 @@ class Run:
                 return ("value", tid)
             if kind == "raise":
                 raise TaskError(tid)
+            if kind == "ret_exception":
+                # a function may *return* an exception object (a caught error handed back as a value)
+                return (OSError, TaskError, KeyboardInterrupt, TaskBaseError)[tid % 4](tid)
+            if kind == "ret_none":
+                return None
             if kind == "raise_base":
                 raise TaskBaseError(tid)
             if kind == "raise_sysexit":
@@ -331,7 +336,13 @@ def check_history(res: Result, run: Run, label: str):
                 continue
             try:
                 v = r.get(timeout=2.0)
-                if kinds[tid].startswith("raise") or v != ("value", tid):
+                if kinds[tid] == "ret_exception":
+                    if type(v) is not (OSError, TaskError, KeyboardInterrupt, TaskBaseError)[tid % 4] or v.args != (tid,):
+                        res.violation(mech("reply-value-wrong"), f"{label}: task {tid} returned an exception object, get() -> {v!r}")
+                elif kinds[tid] == "ret_none":
+                    if v is not None:
+                        res.violation(mech("reply-value-wrong"), f"{label}: task {tid} returned None, get() -> {v!r}")
+                elif kinds[tid].startswith("raise") or v != ("value", tid):
                     res.violation(mech("reply-value-wrong"), f"{label}: task {tid} ({kinds[tid]}) -> {v!r}")
             except TaskError as e:
                 if kinds[tid] != "raise" or e.args != (tid,):
